@@ -205,6 +205,16 @@ func c20Body(x *mc.Cell, ops []int, name, names string) mc.Body {
 				x.Violate("C20", "interleaving;goroutines-left-in-locks;ops="+names, fmt.Sprintf("%d goroutine(s) left blocked in library locks; schedule: %v", n, s.Trace), rep)
 				return
 			}
+			// C10: any previous transport request of the channel is cancelled before a new one starts - at the end at
+			// most one outgoing graphsync request of the channel is live (executions that open further channels excluded)
+			// (a channel cancelled by the peer is cleaned up without cancelling its request - the remote ends it - so
+			// executions with a peer cancel are excluded too: the graphsync double does not play the remote's part)
+			if !strings.Contains(names, "open-pull") && !strings.Contains(names, "peer-cancels") {
+				live := w.GS.LiveRequests()
+				if len(live) > 1 {
+					x.Violate("C10", fmt.Sprintf("interleaving;live-requests=%d;ops=%s", len(live), names), fmt.Sprintf("after %s the channel has %d live graphsync requests %v (a restart must cancel the previous request before opening a new one); graphsync calls: %v; schedule: %v", names, len(live), live, gsOps(w.GS), s.Trace), rep)
+				}
+			}
 			// end state must be presentable
 			if st, err := w.Mgr.ChannelState(context.Background(), chid); err == nil {
 				for _, p := range views.Check(st) {
@@ -290,6 +300,11 @@ func init() {
 			pair := conOps[a].name + "+" + conOps[b].name
 			mc.Register("C20", "interleave-pairs/"+pair, "quick", func(x *mc.Cell) { c20Interleave(x, []int{a, b}, 1) })
 			mc.Register("C20", "interleave-pairs/"+pair, "thorough", func(x *mc.Cell) { c20Interleave(x, []int{a, b}, 2) })
+			if strings.Contains(pair, "restart") && !strings.Contains(pair, "open-pull") && !strings.Contains(pair, "stop") {
+				// restarts racing with each other / with other operations also decide C10's "previous request cancelled first"
+				mc.Register("C10", "interleave-pairs/"+pair, "quick", func(x *mc.Cell) { c20Interleave(x, []int{a, b}, 1) })
+				mc.Register("C10", "interleave-pairs/"+pair, "thorough", func(x *mc.Cell) { c20Interleave(x, []int{a, b}, 2) })
+			}
 			if (conOps[a].name == "restart" && conOps[b].name == "restart") || (conOps[a].name == "open-pull" && conOps[b].name == "restart") {
 				// the triples that exposed the cleaned-up-channel hang in the free-running pass are part of the quick tier
 				mc.Register("C20", "interleave-triples/"+pair, "quick", func(x *mc.Cell) {
@@ -307,4 +322,14 @@ func init() {
 			})
 		}
 	}
+}
+
+func gsOps(g *doubles.FakeGS) []string {
+	var out []string
+	for _, c := range g.CallsFrom(0) {
+		if c.Op == "request" || c.Op == "cancel" {
+			out = append(out, fmt.Sprintf("%s(%d)", c.Op, c.Req))
+		}
+	}
+	return out
 }
